@@ -327,11 +327,15 @@ Definition xparse (s : str) : option xtree :=
   end.
 
 (* the writer's spelling of a tree *)
-Fixpoint items_of (t : xtree) : list item :=
+(* q n = true: the writer puts one more blank after the element name (the ListOf encoder writes "<ListOfX >") *)
+Definition padq (q : str -> bool) (n : str) : str := if q n then [" "] else [].
+Fixpoint items_ofq (q : str -> bool) (t : xtree) : list item :=
   match t with
-  | Elem _ _ _ n a txt ch tl => (n ++ spell_attrs a, txt) :: flat_map items_of ch ++ [("/" :: n, tl)]
+  | Elem _ _ _ n a txt ch tl => (n ++ padq q n ++ spell_attrs a, txt) :: flat_map (items_ofq q) ch ++ [("/" :: n, tl)]
   end.
-Definition spell_tree (t : xtree) : str := spell [] (items_of t).
+Definition spell_treeq (q : str -> bool) (t : xtree) : str := spell [] (items_ofq q t).
+Definition items_of := items_ofq (fun _ => false).
+Definition spell_tree := spell_treeq (fun _ => false).
 
 Definition key_ok2 (k : str) : bool := key_ok k && negb (has "<" k) && negb (has ">" k).
 Fixpoint tree_ok (t : xtree) : bool :=
@@ -378,28 +382,57 @@ Proof.
   unfold key_ok2 in Hk. apply andb_true_iff in Hk as [Hk _]. apply andb_true_iff in Hk as [Hk _]. now rewrite Hk, IH.
 Qed.
 
-Lemma parse_tag_open n a txt : name_ok n = true -> forallb (fun kv => key_ok2 (fst kv)) a = true ->
-  parse_tag (n ++ spell_attrs a, txt) = Some [TOpen _ _ _ n a txt].
+Lemma lstrip_sp_blank s : lstrip_sp (" " :: s) = lstrip_sp s.
+Proof. reflexivity. Qed.
+Lemma key_of_spelled2 k : key_ok k = true -> key_of (" " :: " " :: k ++ ["="]) = Some k.
+Proof.
+  intros H. pose proof (key_of_spelled k H) as K. unfold key_of in *. rewrite lstrip_sp_blank. exact K.
+Qed.
+Lemma parse_attrs_padded l tail : forallb (fun a => key_ok (fst a)) l = true -> has """" tail = false ->
+  parse_attrs (" " :: spell_attrs l ++ tail) = Some (l, if match l with [] => true | _ => false end then " " :: tail else tail).
+Proof.
+  intros Hk Ht. destruct l as [|[k v] l].
+  - cbn [spell_attrs flat_map app]. unfold parse_attrs. rewrite split_all_none by (cbn; exact Ht). reflexivity.
+  - cbn [forallb fst] in Hk. apply andb_true_iff in Hk as [Hk Hl].
+    pose proof (parse_attrs_spelled l tail Hl Ht) as P. unfold parse_attrs in *.
+    unfold spell_attrs in *. cbn [flat_map]. rewrite <- app_assoc, spell_attr_shape.
+    change (" " :: (" " :: k ++ ["="]) ++ """" :: escape_attr v ++ """" :: flat_map spell_attr l ++ tail)
+      with ((" " :: " " :: k ++ ["="]) ++ """" :: (escape_attr v ++ """" :: flat_map spell_attr l ++ tail)).
+    rewrite split_all_app.
+    2:{ pose proof (key_no_quote k Hk) as Q. cbn [has] in *. exact Q. }
+    rewrite split_all_app by (apply escape_attr_clean; auto).
+    cbn [pair_up]. rewrite key_of_spelled2 by exact Hk. cbn [obind].
+    rewrite unescape_escape_attr. cbn [obind]. rewrite P. reflexivity.
+Qed.
+Lemma parse_tag_open q n a txt : name_ok n = true -> forallb (fun kv => key_ok2 (fst kv)) a = true ->
+  parse_tag (n ++ padq q n ++ spell_attrs a, txt) = Some [TOpen _ _ _ n a txt].
 Proof.
   intros Hn Ha. destruct (name_ok_parts n Hn) as [Hsp [Hsl [_ [_ [_ [_ [c [r [-> [Hq [Hs Hb]]]]]]]]]]].
-  unfold parse_tag. cbn [app].
+  unfold parse_tag, padq. cbn [app].
   destruct (Ascii.eqb_spec c "/"); [contradiction|]. destruct (Ascii.eqb_spec c "?"); [contradiction|].
-  destruct a as [|[k v] a].
-  - cbn [spell_attrs flat_map]. rewrite app_nil_r. change (c :: r) with ((c :: r)).
-    rewrite (split_once_none _ _ Hsp). now rewrite (no_slash_end _ Hsl).
-  - change (c :: r ++ spell_attrs ((k, v) :: a)) with ((c :: r) ++ spell_attrs ((k, v) :: a)).
-    assert (Hshape : spell_attrs ((k, v) :: a) = " " :: tl (spell_attrs ((k, v) :: a))) by reflexivity.
-    rewrite Hshape. rewrite (split_once_app _ _ _ Hsp). rewrite <- Hshape.
-    rewrite <- (app_nil_r (spell_attrs ((k, v) :: a))).
-    rewrite parse_attrs_spelled; [reflexivity | now apply keys_ok2_ok | reflexivity].
+  destruct (q (c :: r)).
+  - (* one extra blank after the name *)
+    change (c :: r ++ [" "] ++ spell_attrs a) with ((c :: r) ++ " " :: spell_attrs a).
+    rewrite (split_once_app _ _ _ Hsp).
+    rewrite <- (app_nil_r (spell_attrs a)).
+    rewrite parse_attrs_padded; [|now apply keys_ok2_ok|reflexivity].
+    destruct a; reflexivity.
+  - cbn [app]. destruct a as [|[k v] a].
+    + cbn [spell_attrs flat_map]. rewrite app_nil_r.
+      rewrite (split_once_none _ _ Hsp). now rewrite (no_slash_end _ Hsl).
+    + change (c :: r ++ spell_attrs ((k, v) :: a)) with ((c :: r) ++ spell_attrs ((k, v) :: a)).
+      assert (Hshape : spell_attrs ((k, v) :: a) = " " :: tl (spell_attrs ((k, v) :: a))) by reflexivity.
+      rewrite Hshape. rewrite (split_once_app _ _ _ Hsp). rewrite <- Hshape.
+      rewrite <- (app_nil_r (spell_attrs ((k, v) :: a))).
+      rewrite parse_attrs_spelled; [reflexivity | now apply keys_ok2_ok | reflexivity].
 Qed.
 Lemma parse_tag_close n tl : parse_tag ("/" :: n, tl) = Some [TClose _ _ _ n tl].
 Proof. reflexivity. Qed.
 
-Lemma open_tag_ok n a : name_ok n = true -> forallb (fun kv => key_ok2 (fst kv)) a = true -> tag_ok (n ++ spell_attrs a) = true.
+Lemma open_tag_ok q n a : name_ok n = true -> forallb (fun kv => key_ok2 (fst kv)) a = true -> tag_ok (n ++ padq q n ++ spell_attrs a) = true.
 Proof.
-  intros Hn Ha. destruct (name_ok_parts n Hn) as [_ [_ [Hlt [Hgt _]]]]. unfold tag_ok.
-  rewrite !has_app, Hlt, Hgt, (spell_attrs_clean "<" a), (spell_attrs_clean ">" a); auto.
+  intros Hn Ha. destruct (name_ok_parts n Hn) as [_ [_ [Hlt [Hgt _]]]]. unfold tag_ok, padq.
+  rewrite !has_app, Hlt, Hgt, (spell_attrs_clean "<" a), (spell_attrs_clean ">" a); auto. now destruct (q n).
 Qed.
 Lemma close_tag_ok n : name_ok n = true -> tag_ok ("/" :: n) = true.
 Proof. intros Hn. destruct (name_ok_parts n Hn) as [_ [_ [Hlt [Hgt _]]]]. unfold tag_ok. cbn. now rewrite Hlt, Hgt. Qed.
@@ -411,21 +444,21 @@ Proof.
   repeat split; auto. apply Forall_forall. intros c Hin. rewrite forallb_forall in Hc. now apply Hc.
 Qed.
 
-Lemma items_tag_ok t : tree_ok t = true -> forallb (fun it => tag_ok (fst it)) (items_of t) = true.
+Lemma items_tag_ok q t : tree_ok t = true -> forallb (fun it => tag_ok (fst it)) (items_ofq q t) = true.
 Proof.
   induction t as [n a txt ch tl IH] using (xml_ind' str (list attr) str). intros H.
-  destruct (tree_ok_inv _ _ _ _ _ H) as [Hn [Ha Hc]]. cbn [items_of forallb fst].
-  rewrite (open_tag_ok n a Hn Ha). cbn [andb]. rewrite forallb_app. cbn [forallb fst]. rewrite (close_tag_ok n Hn). rewrite andb_true_r.
+  destruct (tree_ok_inv _ _ _ _ _ H) as [Hn [Ha Hc]]. cbn [items_ofq forallb fst].
+  rewrite (open_tag_ok q n a Hn Ha). cbn [andb]. rewrite forallb_app. cbn [forallb fst]. rewrite (close_tag_ok n Hn). rewrite andb_true_r.
   clear H. induction IH as [|c ch' Hc1 _ IHch]; [reflexivity|]. inversion Hc; subst. cbn [flat_map]. rewrite forallb_app.
   apply andb_true_iff. split; [now apply Hc1 | now apply IHch].
 Qed.
-Lemma items_tokens t : tree_ok t = true ->
-  sequence (map parse_tag (items_of t)) = Some (map (fun x => [x]) (toks str (list attr) str t)).
+Lemma items_tokens q t : tree_ok t = true ->
+  sequence (map parse_tag (items_ofq q t)) = Some (map (fun x => [x]) (toks str (list attr) str t)).
 Proof.
   induction t as [n a txt ch tl IH] using (xml_ind' str (list attr) str). intros H.
-  destruct (tree_ok_inv _ _ _ _ _ H) as [Hn [Ha Hc]]. cbn [items_of toks map].
-  rewrite (parse_tag_open n a txt Hn Ha). cbn [sequence].
-  assert (G : sequence (map parse_tag (flat_map items_of ch ++ [("/" :: n, tl)])) =
+  destruct (tree_ok_inv _ _ _ _ _ H) as [Hn [Ha Hc]]. cbn [items_ofq toks map].
+  rewrite (parse_tag_open q n a txt Hn Ha). cbn [sequence].
+  assert (G : sequence (map parse_tag (flat_map (items_ofq q) ch ++ [("/" :: n, tl)])) =
               Some (map (fun x => [x]) (flat_map (toks str (list attr) str) ch ++ [TClose _ _ _ n tl]))).
   { clear H. induction IH as [|c ch' Hc1 _ IHch].
     - reflexivity.
@@ -446,11 +479,14 @@ Proof.
   induction s as [|c r IH]; [reflexivity|]. cbn [has norm_nl]. intros H. apply orb_false_iff in H as [Hc Hr].
   rewrite Hc. now rewrite IH.
 Qed.
-Theorem xparse_spell t : tree_ok t = true -> has CR (spell_tree t) = false -> xparse (spell_tree t) = Some t.
+Theorem xparse_spellq q t : tree_ok t = true -> has CR (spell_treeq q t) = false -> xparse (spell_treeq q t) = Some t.
 Proof.
-  intros H Hcr. unfold xparse. rewrite norm_nl_id by exact Hcr. unfold spell_tree. rewrite lex_spell by now apply items_tag_ok.
-  rewrite (items_tokens t H), concat_singletons. apply parse_toks. apply str_eqb_refl.
+  intros H Hcr. unfold xparse. rewrite norm_nl_id by exact Hcr. unfold spell_treeq. rewrite lex_spell by now apply items_tag_ok.
+  rewrite (items_tokens q t H), concat_singletons. apply parse_toks. apply str_eqb_refl.
 Qed.
+
+Theorem xparse_spell t : tree_ok t = true -> has CR (spell_tree t) = false -> xparse (spell_tree t) = Some t.
+Proof. apply xparse_spellq. Qed.
 
 (* ====================== namespaces: what lxml's .tag / .attrib / .text present ====================== *)
 Inductive nxml := NElem (ns : str) (local : str) (attrs : list attr) (text : option str) (children : list nxml).
